@@ -41,7 +41,7 @@ impl Hsl {
     fn compute_shade_of_grey(&self) -> u8 {
         let gray = self.l / 100.0 * 255.0;
 
-        gray as u8
+        gray.round() as u8
     }
 
     /// Compute RGB Values from hue
